@@ -117,6 +117,7 @@ func (e *Enc) callWith(fr *Frame, c *ssa.CallCommon, site ssa.Instruction, st *S
 	fn := callee.Clo.Fn
 	key := fnKey(fn)
 	e.globalStateWrite(fr, key, c, rb, site)
+	e.inPlaceStdWrite(fr, key, args, st, rb, site)
 	if key == "fmt.Sprintf" {
 		if r, ok := e.sprintfConcat(fr, c, args); ok {
 			return r, st, rb
@@ -663,6 +664,9 @@ func (e *Enc) builtin(fr *Frame, b *ssa.Builtin, c *ssa.CallCommon, args []Val, 
 		return res, st, rb
 	case "copy":
 		e.unsupported(fr, "copy builtin (destination havocked)")
+		if _, ok := args[0].Typ.Underlying().(*types.Slice); ok {
+			e.writeFrame(fr, "copy into a slice", "(sl_ref "+args[0].T+")", nil, st, and(rb, "(> (sl_len "+args[0].T+") 0)"), sitePos(site))
+		}
 		if stp, ok := args[0].Typ.Underlying().(*types.Slice); ok {
 			comp := e.elemComp(stp.Elem())
 			st = e.Havoc(st, func(c string) bool { return c == comp })
@@ -1503,6 +1507,30 @@ func (e *Enc) globalStateWrite(fr *Frame, key string, c *ssa.CallCommon, rb Term
 	}
 	if g, ok := root.(*ssa.Global); ok {
 		e.ob(fr, "wframe", e.nextName(fr, "wframe"), rb, "false", "write to package-level state "+g.Name()+" through "+shortKey(key), sitePos(site))
+	}
+}
+
+// inPlaceStdWrite: under a `writeframe` contract the standard helpers that rearrange or overwrite
+// their first argument in place (sorting, reversing, compacting, deleting, copying into a map) are
+// writes like a store instruction: the slice or map handed to them must be memory the call allocated
+// itself or context-owned. An empty slice has nothing to write.
+func (e *Enc) inPlaceStdWrite(fr *Frame, key string, args []Val, st *State, rb Term, site ssa.Instruction) {
+	top := fr.top
+	if top == nil || top.contract == nil || !top.contract.WriteFrame || len(args) == 0 {
+		return
+	}
+	switch key {
+	case "slices.Sort", "slices.SortFunc", "slices.SortStableFunc", "slices.Reverse", "slices.DeleteFunc", "slices.Delete",
+		"slices.Compact", "slices.CompactFunc", "sort.Strings", "sort.Ints", "sort.Float64s", "maps.Copy", "maps.DeleteFunc":
+	default:
+		return
+	}
+	v := args[0]
+	switch v.Typ.Underlying().(type) {
+	case *types.Slice:
+		e.writeFrame(fr, "in-place change of a slice by "+shortKey(key), "(sl_ref "+v.T+")", nil, st, and(rb, "(> (sl_len "+v.T+") 0)"), sitePos(site))
+	case *types.Map:
+		e.writeFrame(fr, "in-place change of a map by "+shortKey(key), v.T, v.Typ, st, rb, sitePos(site))
 	}
 }
 
